@@ -39,6 +39,7 @@ type StormCase struct {
 	Pre      int   `json:"pre"`       // spans ended (and flushed) before the storm
 	Provider bool  `json:"via_provider"`
 	Reps     int   `json:"reps"`
+	Flags    int   `json:"flags,omitempty"` // trace-flags byte every span inherits (all spans are sampled: bit 0 is set on the span)
 }
 
 func genStorm(t *rapid.T) StormCase {
@@ -58,6 +59,7 @@ func genStorm(t *rapid.T) StormCase {
 	c.Pre = rapid.IntRange(0, 2).Draw(t, "pre")
 	c.Provider = rapid.Bool().Draw(t, "via_provider")
 	c.Reps = 25
+	c.Flags = genFlags(t)
 	return c
 }
 
@@ -102,7 +104,11 @@ func runStorm(c StormCase) ([]vk.Violation, vk.Info) {
 			spans := make([]trace.Span, total)
 			ids := map[trace.SpanID]int{}
 			for i := range spans {
-				_, spans[i] = tr.Start(context.Background(), "s")
+				r := 0
+				if c.Flags > 1 {
+					r = 1 + i%2
+				}
+				_, spans[i] = tr.Start(parentCtx(c.Flags|1, r, i), "s")
 				ids[spans[i].SpanContext().SpanID()] = i
 			}
 			exp.idOf = func(s sdktrace.ReadOnlySpan) int { return ids[s.SpanContext().SpanID()] }
@@ -116,7 +122,7 @@ func runStorm(c StormCase) ([]vk.Violation, vk.Info) {
 			end = func(i int) {
 				var sid trace.SpanID
 				binary.BigEndian.PutUint64(sid[:], uint64(i+1))
-				bsp.OnEnd(tracetest.SpanStub{Name: "s", SpanContext: trace.NewSpanContext(trace.SpanContextConfig{TraceID: trace.TraceID{1}, SpanID: sid, TraceFlags: trace.FlagsSampled})}.Snapshot())
+				bsp.OnEnd(tracetest.SpanStub{Name: "s", SpanContext: trace.NewSpanContext(trace.SpanContextConfig{TraceID: trace.TraceID{1}, SpanID: sid, TraceFlags: spanFlags(c.Flags, false)})}.Snapshot())
 			}
 			flush, shutdown = bsp.ForceFlush, bsp.Shutdown
 		}
@@ -209,6 +215,7 @@ func runStorm(c StormCase) ([]vk.Violation, vk.Info) {
 	info.ClassIf(len(c.Flush) > 0, "flush_in_the_storm")
 	info.ClassIf(lateQueueFull > 0, "more_Ends_than_queue_slots_returned_before_Shutdown(observed)")
 	info.ClassIf(c.Provider, "via_provider")
+	info.ClassIf(c.Flags&0xfe != 0, "sampled_spans_with_other_trace_flag_bits")
 	return vs, info
 }
 
